@@ -241,6 +241,18 @@ class Prog:
         elif k == 'abort':
             self.boundary('abort')
             self.tm.abort()
+        elif k == 'commit-vote-fail':
+            # another participant votes no after the storage has voted
+            from .connworld import FailingRM
+            old = self.txn
+            self.boundary('failed-commit')
+            self.tm.get().join(FailingRM('vote'))
+            try:
+                self.tm.commit()
+                w.log('commit-done', self.tid, old)
+            except RuntimeError:
+                w.log('commit-vetoed', self.tid, old)
+                self.tm.abort()
         elif k == 'sp':
             self.tm.savepoint()
         elif k == 'pack':
